@@ -771,7 +771,7 @@ class Parser:
 
         return meta
 
-    def parse_section_marker(self) -> Section | None:
+    def parse_section_marker(self, base_indent: int = 0) -> Section | None:
         """Parse §NUMBER::NAME or §IDENTIFIER::NAME section marker with nested children.
 
         Pattern: §NUMBER[SUFFIX]::NAME[bracket_tail] or §IDENTIFIER::[NAME] followed by indented children.
@@ -862,8 +862,9 @@ class Parser:
                 pre_indent_comments.append(self.current().value)
             self.advance()
 
-        # Expect indentation for children
-        if self.current().type == TokenType.INDENT:
+        # Expect indentation for children (deeper than the section marker's own line; a line at
+        # the same or a shallower indent is a sibling/ancestor of an empty section, not its child)
+        if self.current().type == TokenType.INDENT and self.current().value > base_indent:
             child_indent = self.current().value
             self.advance()
 
@@ -972,7 +973,7 @@ class Parser:
         """
         # Check for section marker first
         if self.current().type == TokenType.SECTION:
-            section = self.parse_section_marker()
+            section = self.parse_section_marker(base_indent)
             if section and leading_comments:
                 section.leading_comments = leading_comments
             return section
@@ -1091,8 +1092,9 @@ class Parser:
                     )
                 )
 
-            # Expect indentation for children
-            elif self.current().type == TokenType.INDENT:
+            # Expect indentation for children (deeper than this block's own line; a line at the
+            # same or a shallower indent is a sibling/ancestor of an empty block, not its child)
+            elif self.current().type == TokenType.INDENT and self.current().value > base_indent:
                 child_indent = self.current().value
                 self.advance()
 
